@@ -92,6 +92,10 @@ pub struct Cfg {
     pub meta: Option<Meta>,
     pub width: u32,
     pub height: u32,
+    /// an audio selection made on the builder BEFORE the one in `audio` (which overrides it); with
+    /// `audio: None` the builder then receives AudioCodec::None, which withdraws the selection
+    #[serde(default)]
+    pub audio_first: Option<AudioCfg>,
 }
 
 impl Cfg {
@@ -103,6 +107,7 @@ impl Cfg {
             meta: None,
             width: 640,
             height: 480,
+            audio_first: None,
         }
     }
     pub fn short(&self) -> String {
